@@ -53,6 +53,10 @@ TARGETS = [
     ("gt_text_key", "cstree/src/green/token.rs", "GreenToken", None, "text_key"),
     ("tok_static_text", "cstree/src/syntax/token.rs", "SyntaxToken", None, "static_text"),
     ("tok_text_key", "cstree/src/syntax/token.rs", "SyntaxToken", None, "text_key"),
+    ("n_clone", "cstree/src/syntax/node.rs", "SyntaxNode", "Clone", "clone"),
+    ("n_drop", "cstree/src/syntax/node.rs", "SyntaxNode", "Drop", "drop"),
+    ("n_try_write", "cstree/src/syntax/node.rs", "SyntaxNode", None, "try_write"),
+    ("n_read", "cstree/src/syntax/node.rs", "SyntaxNode", None, "read"),
     ("i_get_or_intern", "cstree/src/interning/traits.rs", "Interner", "trait", "get_or_intern"),
     ("i_resolve", "cstree/src/interning/traits.rs", "Resolver", "trait", "resolve"),
     ("i_fwd_get_or_intern", "cstree/src/interning/traits.rs", "I", "Interner", "get_or_intern"),
@@ -548,6 +552,18 @@ class Parser:
         while not self.at("}"):
             if self.at(";"):
                 self.i += 1; continue
+            if self.at("#") and self.at("[", 1):
+                # an attribute on a statement; `#[cfg(cstree_verif)]` marks instrumentation: that statement is not part of the
+                # function's meaning and is skipped; `#[cfg(not(cstree_verif))]` and other attributes are dropped, the statement stays
+                a0 = self.i + 1
+                a1 = skip_balanced(self.t, a0, "[", "]")
+                attr = "".join(v if k != "str" else '"' + v + '"' for (k, v) in self.t[a0 + 1:a1 - 1])
+                self.i = a1
+                if attr == "cfg(cstree_verif)":
+                    self.skip_statement()
+                elif attr.startswith("cfg(") and attr != "cfg(not(cstree_verif))":
+                    raise Unsupported("conditional compilation: " + attr)
+                continue
             if self.at_id("let"):
                 self.i += 1
                 # the initialiser is evaluated before the pattern binds
@@ -572,7 +588,17 @@ class Parser:
                 self.eat(";")
                 stmts.append(f"(.letS {pat} {init})")
                 continue
-            blocklike = self.at_id("if") or self.at_id("match") or self.at_id("for") or self.at_id("loop") or self.at_id("while") or self.at("{")
+            blocklike = self.at_id("if") or self.at_id("match") or self.at_id("for") or self.at_id("loop") or self.at_id("while") or self.at("{") or (self.at_id("unsafe") and self.at("{", 1))
+            ptr_target = None
+            if self.at("*") and self.peek(1)[0] == "id" and self.peek(1)[1] != "self" and self.at("=", 2) and self.lookup(self.peek(1)[1]) is not None:
+                # `*p = e;` with `p` a local: a store through a pointer, not a change of the local
+                ptr_target = self.lookup(self.peek(1)[1])
+                self.i += 3
+                rhs = self.expr()
+                if not self.at("}"):
+                    self.eat(";")
+                stmts.append(f"(.exprS (.call {self.N['ptr_write']} [(.var {ptr_target}), {rhs}]))")
+                continue
             e = self.expr()
             if self.at("=") or any(self.at(op) for op in ("+=", "-=", "*=")):
                 op = self.peek()[1]; self.i += 1
@@ -708,6 +734,9 @@ class Parser:
             self.i += 1
             if self.at(";") or self.at("}") or self.at(","): return "(.ret .unit)"
             return f"(.ret {self.expr()})"
+        if v == "unsafe" and self.at("{", 1):
+            self.i += 1
+            return self.block()
         if v in ("continue", "unsafe", "async", "await"): raise Unsupported(v)
         # macro
         if self.at("!", 1) and (self.at("(", 2) or self.at("[", 2)):
@@ -751,6 +780,22 @@ class Parser:
         if is_ctor:
             return f"(.ctor {self.name(key)} [])"
         raise Unsupported(f"free name {'::'.join(segs)}")
+
+    def skip_statement(self):
+        """skips one statement: up to the `;` at depth 0, or a block-like statement"""
+        depth = 0
+        while True:
+            k, v = self.peek()
+            if k == "eof": raise Unsupported("statement runs to eof")
+            if k == "p" and v in "([{": depth += 1
+            if k == "p" and v in ")]}":
+                if depth == 0: return          # end of the enclosing block: the skipped statement was its tail
+                depth -= 1
+                if depth == 0 and v == "}" and not self.at(";", 1) and not self.at(".", 1) and not self.at("?", 1):
+                    self.i += 1; return
+            if k == "p" and v == ";" and depth == 0:
+                self.i += 1; return
+            self.i += 1
 
     def cond(self):
         """an expression in a position where `Name {` does not start a struct literal"""
